@@ -2,6 +2,7 @@ package c09
 
 import (
 	"fmt"
+	"os"
 	"path/filepath"
 	"regexp"
 	"runtime"
@@ -9,6 +10,7 @@ import (
 	"strconv"
 	"strings"
 	"sync"
+	"sync/atomic"
 	"testing"
 	"time"
 
@@ -52,11 +54,9 @@ func genCase(t *rapid.T) Case {
 	for i := 0; i < np; i++ {
 		c.Prefix = append(c.Prefix, g.Insert())
 	}
-	nsearchers := 1
+	nsearchers := rapid.IntRange(1, 3).Draw(t, "nsearchers")
 	if c.Regime == "R3" {
-		nsearchers = rapid.IntRange(2, 4).Draw(t, "nsearchers")
-	} else if c.Regime == "R1" {
-		nsearchers = rapid.IntRange(1, 3).Draw(t, "nsearchersR1")
+		nsearchers = rapid.IntRange(1, 4).Draw(t, "nsearchersR3")
 	}
 	c.Searchers = make([][]models.Query, nsearchers)
 	nw := rapid.IntRange(1, 4).Draw(t, "nwrites")
@@ -95,14 +95,16 @@ type participant struct {
 	goCh   chan struct{}
 	done   chan struct{}
 	// current operation bookkeeping (timeline)
-	beginT, endT int64
-	txWrite      bool
-	txErr        error
+	preT, beginT, preEndT, endT int64
+	txWrite                      bool
+	txErr                        error
+	bodyDone                     atomic.Bool // the body of the current read transaction has returned (no more cache use)
 }
 
 type searchRecord struct {
 	searcher     int
 	query        models.Query
+	preT         int64
 	beginT, endT int64
 	rows         []drive.Row
 	err          error
@@ -114,7 +116,8 @@ type world struct {
 	parts    []*participant
 	byGoid   map[int64]*participant
 	versions []*model.Collection // versions[k] = committed state after k writer batches (0 = after the prefix)
-	commitT  []int64             // logical time of the commit of version k (commitT[0] = 0)
+	commitT  []int64             // version k became visible before commitT[k] ...
+	preT     []int64             // ... and after preT[k] (both 0 for version 0)
 	searches []searchRecord
 	viol     error
 	trace    []string
@@ -213,7 +216,29 @@ func execCase(c Case) (res vt.Result) {
 	if err != nil {
 		return vt.Result{Err: err}
 	}
-	defer func() { s.Proxy.SetHooks(nil); s.Close() }()
+	var parts []*participant
+	defer func() {
+		// let every participant run to its end without further pauses; if they do not finish (a genuine
+		// deadlock) the shard cannot be closed and is left behind
+		s.Proxy.SetHooks(nil)
+		deadline := time.Now().Add(3 * time.Second)
+		for _, p := range parts {
+			for !isDone(p) && time.Now().Before(deadline) {
+				select {
+				case p.goCh <- struct{}{}:
+				case <-p.parked:
+				case <-p.done:
+				case <-time.After(time.Millisecond):
+				}
+			}
+		}
+		for _, p := range parts {
+			if !isDone(p) {
+				return
+			}
+		}
+		s.Close()
+	}()
 	m := model.NewCollection(c.Schema, 1<<20)
 	for i, st := range c.Prefix {
 		if reason := m.Insert(st.Points); reason != "" {
@@ -240,7 +265,7 @@ func execCase(c Case) (res vt.Result) {
 	if err := drive.StrayVerdict(s); err != nil {
 		return vt.Result{Err: fmt.Errorf("while populating: %v", err)}
 	}
-	w := &world{s: s, byGoid: map[int64]*participant{}, versions: []*model.Collection{m.Clone()}, commitT: []int64{0}}
+	w := &world{s: s, byGoid: map[int64]*participant{}, versions: []*model.Collection{m.Clone()}, commitT: []int64{0}, preT: []int64{0}}
 	// hooks: pause right after a transaction began and right after it ended (commit returned / read finished)
 	hooks := &drive.Hooks{
 		TxBegin: func(tx *drive.ProxyTx) {
@@ -250,9 +275,18 @@ func execCase(c Case) (res vt.Result) {
 			if p == nil {
 				return
 			}
-			p.beginT = tx.BeginT
+			p.preT, p.beginT = tx.PreT, tx.BeginT
 			p.txWrite = tx.Write
+			p.bodyDone.Store(false)
 			p.pause(w, "begin")
+		},
+		TxBodyDone: func(tx *drive.ProxyTx) {
+			w.mu.Lock()
+			p := w.byGoid[tx.Goid]
+			w.mu.Unlock()
+			if p != nil {
+				p.bodyDone.Store(true)
+			}
 		},
 		TxEnd: func(tx *drive.ProxyTx, err error) {
 			w.mu.Lock()
@@ -261,7 +295,7 @@ func execCase(c Case) (res vt.Result) {
 			if p == nil {
 				return
 			}
-			p.endT = tx.EndT
+			p.preEndT, p.endT = tx.PreEndT, tx.EndT
 			p.txErr = err
 			p.pause(w, "end")
 		},
@@ -274,7 +308,10 @@ func execCase(c Case) (res vt.Result) {
 		}
 		w.parts = append(w.parts, &participant{idx: i, name: name, parked: make(chan string, 4), goCh: make(chan struct{}), done: make(chan struct{})})
 	}
-	// participants
+	parts = w.parts
+	// participants: they register, then wait for the start signal; the hooks are installed before
+	s.Proxy.SetHooks(hooks)
+	start := make(chan struct{})
 	wm := m.Clone() // the writer's sequential model
 	ready := make(chan struct{}, nparts)
 	go func() {
@@ -284,6 +321,7 @@ func execCase(c Case) (res vt.Result) {
 		w.byGoid[p.goid] = p
 		w.mu.Unlock()
 		ready <- struct{}{}
+		<-start
 		defer close(p.done)
 		for bi, st := range c.Writer {
 			before := wm.Clone()
@@ -312,6 +350,7 @@ func execCase(c Case) (res vt.Result) {
 			if reason == "" {
 				w.versions = append(w.versions, wm.Clone())
 				w.commitT = append(w.commitT, p.endT)
+				w.preT = append(w.preT, p.preEndT)
 			}
 			w.trace = append(w.trace, fmt.Sprintf("  writer batch %d (%s) done at t=%d, versions=%d", bi, st.Kind, p.endT, len(w.versions)))
 			w.mu.Unlock()
@@ -325,11 +364,12 @@ func execCase(c Case) (res vt.Result) {
 			w.byGoid[p.goid] = p
 			w.mu.Unlock()
 			ready <- struct{}{}
+			<-start
 			defer close(p.done)
 			for _, q := range c.Searchers[j] {
 				rows, err := s.Search(models.SearchRequest{Query: q, Select: []string{"*"}})
 				w.mu.Lock()
-				w.searches = append(w.searches, searchRecord{searcher: j + 1, query: q, beginT: p.beginT, endT: p.endT, rows: rows, err: err})
+				w.searches = append(w.searches, searchRecord{searcher: j + 1, query: q, preT: p.preT, beginT: p.beginT, endT: p.endT, rows: rows, err: err})
 				w.trace = append(w.trace, fmt.Sprintf("  %s finished a search [t=%d..%d] err=%v", p.name, p.beginT, p.endT, err))
 				w.mu.Unlock()
 			}
@@ -338,7 +378,7 @@ func execCase(c Case) (res vt.Result) {
 	for i := 0; i < nparts; i++ {
 		<-ready
 	}
-	s.Proxy.SetHooks(hooks)
+	close(start)
 	// start everybody: each runs until its first pause point
 	state := make([]string, nparts) // "" running/blocked, "begin"/"end" parked, "done"
 	w.settleAll(state)
@@ -351,6 +391,7 @@ func execCase(c Case) (res vt.Result) {
 		}
 		return n
 	}
+	releasedFrom := make([]string, nparts)
 	move := func(i int) bool {
 		p := w.parts[i]
 		if state[i] == "done" {
@@ -361,15 +402,39 @@ func execCase(c Case) (res vt.Result) {
 			w.settleAll(state)
 			return state[i] != ""
 		}
-		// regime R2: at most one search in flight (between its begin and its end) at a time
-		if c.Regime == "R2" && i > 0 && state[i] == "begin" {
-			for k := 1; k < nparts; k++ {
-				if k != i && (state[k] == "end" || state[k] == "") && !isDone(w.parts[k]) {
-					return false
+		// regime R2 (strict): searches never overlap a commit and never run side by side, so that the
+		// catalogued defect D5 cannot occur by construction:
+		//  - a searcher leaves "begin" only while no other searcher is running;
+		//  - the writer leaves "end" (its cache locks are released right after) only when every searcher is
+		//    at "end" / done, or parked at "begin" with a snapshot taken after this commit
+		if c.Regime == "R2" {
+			if i > 0 && state[i] == "begin" {
+				for k := 1; k < nparts; k++ {
+					// in flight: released from "begin", not yet parked at "end" (a searcher released from
+					// "end" that has not reached "begin" yet is blocked before its transaction began)
+					if k != i && state[k] == "" && releasedFrom[k] == "begin" && !w.parts[k].bodyDone.Load() {
+						return false
+					}
+				}
+			}
+			if i == 0 && state[0] == "end" {
+				for k := 1; k < nparts; k++ {
+					switch state[k] {
+					case "end", "done":
+					case "begin":
+						if w.parts[k].preT <= w.parts[0].endT {
+							return false
+						}
+					default:
+						if releasedFrom[k] == "begin" && !w.parts[k].bodyDone.Load() {
+							return false
+						}
+					}
 				}
 			}
 		}
 		w.logf("release %s from %q", p.name, state[i])
+		releasedFrom[i] = state[i]
 		state[i] = ""
 		p.goCh <- struct{}{}
 		w.settleAll(state)
@@ -402,7 +467,12 @@ func execCase(c Case) (res vt.Result) {
 					who = append(who, fmt.Sprintf("%s (%q)", p.name, state[i]))
 				}
 			}
-			w.violate("no participant can make progress although every pause point was released: %v", who)
+			dump := ""
+			if os.Getenv("VERIF_DEBUG") != "" {
+				buf := make([]byte, 4<<20)
+				dump = string(buf[:runtime.Stack(buf, true)])
+			}
+			w.violate("no participant can make progress although every pause point was released: %v%s", who, dump)
 		}
 		if round > 2000 {
 			w.violate("drain does not terminate")
@@ -415,7 +485,7 @@ func execCase(c Case) (res vt.Result) {
 		return res
 	}
 	// ---- oracle
-	spansCommit, coldPath := false, false
+	spansCommit, coldPath, poisoned := false, false, false
 	strays := s.Proxy.Strays()
 	for _, st := range strays {
 		if c.Regime == "R3" && !st.TxWrite {
@@ -426,14 +496,34 @@ func execCase(c Case) (res vt.Result) {
 		return res
 	}
 	for _, sr := range w.searches {
-		// versions committed-live during the search
-		lo, hi := 0, 0
-		for k, ct := range w.commitT {
-			if ct <= sr.beginT {
-				lo = k
+		// versions possibly current at some moment of the search: version k became visible in
+		// (preT[k], commitT[k]) and was replaced in (preT[k+1], commitT[k+1]); the search's snapshot was
+		// taken in (sr.preT, sr.beginT) and the search ended at sr.endT
+		lo, hi := len(w.versions)-1, 0
+		for k := range w.versions {
+			replacedBeforeSearch := k+1 < len(w.versions) && w.commitT[k+1] <= sr.preT
+			visibleBeforeEnd := w.preT[k] < sr.endT
+			if !replacedBeforeSearch && visibleBeforeEnd {
+				if k < lo {
+					lo = k
+				}
+				if k > hi {
+					hi = k
+				}
 			}
-			if ct <= sr.endT {
-				hi = k
+		}
+		// versions that may be the search's snapshot
+		slo, shi := len(w.versions)-1, 0
+		for k := range w.versions {
+			replacedBeforeSnap := k+1 < len(w.versions) && w.commitT[k+1] <= sr.preT
+			visibleBeforeSnap := w.preT[k] < sr.beginT
+			if !replacedBeforeSnap && visibleBeforeSnap {
+				if k < slo {
+					slo = k
+				}
+				if k > shi {
+					shi = k
+				}
 			}
 		}
 		if hi > lo {
@@ -441,8 +531,9 @@ func execCase(c Case) (res vt.Result) {
 		}
 		if sr.err != nil {
 			msg := sr.err.Error()
-			if c.Regime != "R1" && hi > lo && strings.Contains(msg, "point does not exist") {
-				rec.Known("D5", "shared cache newer than the search's snapshot", msg)
+			if c.Regime == "R3" && strings.Contains(msg, "point does not exist") {
+				rec.Known("D5", "R3: shared cache out of step with the search's snapshot", msg)
+				poisoned = true
 				continue
 			}
 			if c.Regime == "R3" && len(strays) > 0 {
@@ -482,11 +573,11 @@ func execCase(c Case) (res vt.Result) {
 			}
 		}
 		// cache disabled: snapshot isolation makes the answer exactly the snapshot's answer for filters
-		if c.Regime == "R1" && isFilter(sr.query) {
-			b, err := w.versions[lo].EvalFilter(sr.query)
+		if c.Regime == "R1" && isFilter(sr.query) && slo == shi {
+			b, err := w.versions[slo].EvalFilter(sr.query)
 			if err == nil {
 				if err := b.Check(drive.RowIds(sr.rows)); err != nil {
-					res.Err = fmt.Errorf("regime R1: a filter search that began at version %d does not answer from its snapshot: %v", lo, err)
+					res.Err = fmt.Errorf("regime R1: a filter search that began at version %d does not answer from its snapshot: %v", slo, err)
 					return res
 				}
 			}
@@ -505,34 +596,41 @@ func execCase(c Case) (res vt.Result) {
 	}
 	suite := oracle.Suite(c.Schema)
 	if len(strays) == 0 {
-		warm, err := oracle.Observe(s, pool, suite, oracle.ObserveOpts{GraphLists: true})
-		if err != nil {
-			res.Err = fmt.Errorf("after the writer finished, warm instance: %v\nschedule:\n  %s", err, strings.Join(w.trace, "\n  "))
-			return res
-		}
-		cp := filepath.Join(dir, "final-copy.bbolt")
-		if err := drive.CopyFile(path, cp); err != nil {
-			return vt.Result{Err: err}
-		}
-		cold, err := drive.Open(cp, c.Schema, 1<<20, cache.NewManager(-1))
-		if err != nil {
-			return vt.Result{Err: err}
-		}
-		coldObs, err := oracle.Observe(cold, pool, suite, oracle.ObserveOpts{GraphLists: true})
-		cold.Close()
-		if err != nil {
-			res.Err = fmt.Errorf("after the writer finished, cold copy: %v", err)
-			return res
-		}
-		if d := warm.Diff(coldObs); d != "" {
-			res.Err = fmt.Errorf("regime %s: after the writer finished the warm instance and a cold copy of its file answer differently: %s\nschedule:\n  %s", c.Regime, d, strings.Join(w.trace, "\n  "))
-			return res
-		}
-		if err := oracle.CheckSuiteAgainstModel(s, final, suite); err != nil {
-			res.Err = fmt.Errorf("after the writer finished: %v", err)
-			return res
+		finalErr := func() error {
+			warm, err := oracle.Observe(s, pool, suite, oracle.ObserveOpts{GraphLists: true})
+			if err != nil {
+				return fmt.Errorf("after the writer finished, warm instance: %v", err)
+			}
+			cp := filepath.Join(dir, "final-copy.bbolt")
+			if err := drive.CopyFile(path, cp); err != nil {
+				return err
+			}
+			cold, err := drive.Open(cp, c.Schema, 1<<20, cache.NewManager(-1))
+			if err != nil {
+				return err
+			}
+			coldObs, err := oracle.Observe(cold, pool, suite, oracle.ObserveOpts{GraphLists: true})
+			cold.Close()
+			if err != nil {
+				return fmt.Errorf("after the writer finished, cold copy: %v", err)
+			}
+			if d := warm.Diff(coldObs); d != "" {
+				return fmt.Errorf("after the writer finished the warm instance and a cold copy of its file answer differently: %s", d)
+			}
+			return oracle.CheckSuiteAgainstModel(s, final, suite)
+		}()
+		if finalErr != nil {
+			if c.Regime == "R3" {
+				// a search with an older snapshot re-populated the shared cache with items a committed batch had
+				// removed or changed (catalogued D5): the warm cache stays wrong until it is evicted
+				rec.Known("D5", "R3: shared cache left out of step with storage after overlapping searches", finalErr.Error())
+			} else {
+				res.Err = fmt.Errorf("regime %s: %v\nschedule:\n  %s", c.Regime, finalErr, strings.Join(w.trace, "\n  "))
+				return res
+			}
 		}
 	}
+	_ = poisoned
 	rec.Count("regime_"+c.Regime, 1)
 	rec.Count("searches", int64(len(w.searches)))
 	if spansCommit {
